@@ -573,6 +573,13 @@ func c13Run(r *core.Run) {
 			// either: on a changed tree a strategy may refuse a case it used to
 			// handle); the case is skipped and counted
 			r.Probe("fault-free-run-failed")
+			if os.Getenv("VERIF_DEBUG_BASE") != "" {
+				mod := ""
+				if c.Cli != nil {
+					mod = c.Cli.Mod + "/" + c.Cli.Digest + "/" + c.CliKey
+				}
+				println("ZZBASE", label, mod, strings.ReplaceAll(trunc(base.fs.Stderr(), 150), "\n", " | "))
+			}
 			r.Logf("fault-free output phase failed for %s: %v", label, base.err)
 			c13CheckFinal(r, c, label, "base", "-", base, oldDest, destExisted, nil, false)
 			return
